@@ -28,7 +28,7 @@ func runFree(sc *Scenario, procs int) (msg string, timedOut bool) {
 		cancelAfter = sc.N // cancel after this many deliveries
 	}
 	go func() {
-		for _, x := range input {
+		for _, x := range input[e.next[0]:] {
 			select {
 			case e.in[0] <- x:
 				e.mu.Lock()
